@@ -351,13 +351,25 @@ def case_chain(rec, depth, pos, width):
     if depth == 1023:
         rec.covered('chain:1023')
         # a 1023-deep chain must also survive the BoC route with identical depth/hash
+        # (library calls run under the interpreter's default recursion limit, as in a user's program)
         from pytoniq_core.boc import Cell
-        try:
-            back = Cell.one_from_boc(lc.to_boc())
-            if back.hash != rc.hash() or back.get_depth(0) != 1023:
-                rec.violation('chain:boc', 'depth-1023 chain changes through BoC', 'case_chain', args)
-        except Exception as e:
-            rec.violation('chain:boc', f'depth-1023 chain BoC round trip raised {exc_name(e)}: {e}', 'case_chain', args)
+        from .common import user_recursion_limit
+        routes = (('boc', lambda: Cell.one_from_boc(lc.to_boc())),
+                  ('boc_options', lambda: Cell.one_from_boc(lc.to_boc(has_idx=True, hash_crc32=True, has_cache_bits=True))),
+                  ('copy', lambda: lc.copy()),
+                  ('slice_to_cell', lambda: lc.begin_parse().to_cell()),
+                  ('to_builder', lambda: lc.to_builder().end_cell()),
+                  ('recompute', lambda: lc if lc.calculate_representation_hash() == lc.hash else None))
+        for rname, thunk in routes:
+            try:
+                with user_recursion_limit():
+                    back = thunk()
+                    ok = back is not None and back.hash == rc.hash() and back.get_depth(0) == 1023
+                rec.trans()
+                if not ok:
+                    rec.violation(f'chain:{rname}', f'depth-1023 chain changes through route {rname}', 'case_chain', args)
+            except Exception as e:
+                rec.violation(f'chain:{rname}', f'depth-1023 chain: route {rname} raised {exc_name(e)}: {str(e)[:200]}', 'case_chain', args)
     rec.state(('chain', depth, pos, width))
     rec.nontriv(('chain', depth, pos, width))
     rec.outcome('chain-ok')
